@@ -26,6 +26,11 @@ Node specs (lists, so they survive a JSON round trip):
   ["HC", kids]                   head_content(*kids)
   ["OBJ"] ["DICT"] ["SET"] ["BYTES"]   values of unsupported type (object(), {"a":1}, {1}, b"x")
   ["GEN", kids]                  generator yielding the children
+  ["ES", name, ws, attrs, kids]  element of a user SUBCLASS of Tag (no overrides, one extra attribute)
+  ["TLX", kids]                  user subclass of TagList carrying an extra instance attribute
+  ["ECX", name, ws, attrs, kids] Tag whose .children has been replaced by a ["TLX", kids] list
+  ["BOOM"]                       object whose tagify() raises RuntimeError("boom")
+  ["REF", k]                     (only among the kids of an "E") the SAME object as kid number k of that parent
 attribute value specs:  str | int | float | True | False | None | ["H", markup]
 """
 from __future__ import annotations
@@ -121,6 +126,50 @@ class SubList(list):
 
 class SubTagList(TagList):
     pass
+
+
+class SubTag(Tag):
+    """a user subclass of Tag: overrides nothing, carries one extra attribute."""
+
+    def __init__(self, *args, **kwargs):
+        super().__init__(*args, **kwargs)
+        self.card_note = "note"
+
+
+class NotedTagList(TagList):
+    """a user subclass of TagList with an extra instance attribute."""
+
+    def __init__(self, *args):
+        super().__init__(*args)
+        self.note = "noted"
+
+
+def deref(spec):
+    """the same spec with every ["REF", k] replaced by (a copy of) the kid it refers to."""
+    if isinstance(spec, list) and spec and spec[0] == "E":
+        kids = []
+        for c in spec[4]:
+            kids.append(kids[c[1]] if c[0] == "REF" else deref(c))
+        return [spec[0], spec[1], spec[2], spec[3], kids]
+    return spec
+
+
+class Boom:
+    def tagify(self):
+        raise RuntimeError("boom")
+
+
+def desub(spec):
+    """the same spec with user-subclass kinds replaced by the base kinds (for reference models)."""
+    if isinstance(spec, list):
+        if spec and spec[0] in ("ES", "ECX"):
+            return ["E"] + [desub(x) for x in spec[1:]]
+        if spec and spec[0] == "TLX":
+            return ["L"] + [desub(x) for x in spec[1:]]
+        return [desub(x) for x in spec]
+    if isinstance(spec, dict):
+        return {k: desub(v) for k, v in spec.items()}
+    return spec
 
 
 import collections as _collections
@@ -232,14 +281,25 @@ def build_jsx(spec):
     elif mode == "append-all":
         if ch:
             t.append(*ch)
+    elif mode == "extend-tuple":
+        t.extend(tuple(ch))
+    elif mode == "extend-generator":
+        t.extend(c for c in ch)
+    elif mode == "extend-one-by-one":
+        t.extend([])
+        for c in ch:
+            t.extend([c])
+        t.extend(())
     else:
         raise ValueError(mode)
     return t
 
 
 def build_jsx_value(v):
-    if isinstance(v, list) and v and isinstance(v[0], str) and v[0] in ("E", "J", "JX", "XJ", "D"):
+    if isinstance(v, list) and v and isinstance(v[0], str) and v[0] in ("E", "ES", "J", "JX", "XJ", "D"):
         return build(v)
+    if isinstance(v, list) and v and v[0] == "FLT":
+        return float(v[1])
     if isinstance(v, list) and v and v[0] == "TUP":
         return tuple(build_jsx_value(x) for x in v[1])
     if isinstance(v, list) and v and v[0] == "LIST":
@@ -263,11 +323,31 @@ def build(spec: Any) -> Any:
     k = spec[0]
     if k == "E":
         _, name, ws, attrs, kids = spec
-        t = Tag(name, *[build(c) for c in kids], _add_ws=bool(ws))
+        built = []
+        for c in kids:
+            built.append(built[c[1]] if c[0] == "REF" else build(c))
+        t = Tag(name, *built, _add_ws=bool(ws))
         for key, val in attrs:
             # raw dict insertion order == spec order; goes through the public normaliser
             t.attrs.update({key: build_attr_value(val)})
         return t
+    if k == "ES":
+        _, name, ws, attrs, kids = spec
+        t = SubTag(name, *[build(c) for c in kids], _add_ws=bool(ws))
+        for key, val in attrs:
+            t.attrs.update({key: build_attr_value(val)})
+        return t
+    if k == "TLX":
+        return NotedTagList(*[build(c) for c in spec[1]])
+    if k == "ECX":
+        _, name, ws, attrs, kids = spec
+        t = Tag(name, _add_ws=bool(ws))
+        for key, val in attrs:
+            t.attrs.update({key: build_attr_value(val)})
+        t.children = NotedTagList(*[build(c) for c in kids])
+        return t
+    if k == "BOOM":
+        return Boom()
     if k == "T":
         return spec[1]
     if k == "N":
@@ -416,9 +496,9 @@ def is_element(spec) -> bool:
 
 def walk(spec):
     yield spec
-    if spec[0] == "E":
+    if spec[0] in ("E", "ES", "ECX"):
         for c in spec[4]:
             yield from walk(c)
-    elif spec[0] in ("L", "PY", "TU"):
+    elif spec[0] in ("L", "PY", "TU", "TLX"):
         for c in spec[1]:
             yield from walk(c)
